@@ -78,7 +78,7 @@ func (c06Prop) Rule() string {
 func (c06Prop) Assumptions() []string {
 	return []string{
 		"SCOPE: faults on valid artifacts reaching the file reader, the schema parser / codec construction (through damaged header schema text) and the record decode/skip paths and timestamp parser (through damaged record bytes). Free-standing fuzzing of SchemaFromString, parseTime or Codec.Read with unrelated bytes is NOT covered",
-		"allocation bound per call: 16 MiB + 1024 x (input length + total decompressed size); CPU budget per plan 20 s of the worker's own CPU time (typical call: 10-100 us)",
+		"allocation bound per call: 16 MiB + 200 x (input length + total decompressed size) (largest ratio measured on the unchanged tree for inputs >= 32 KiB: 26); CPU budget per plan 20 s of the worker's own CPU time (typical call: 10-100 us)",
 		"which error comes back, or whether one comes back, is never judged (damage may produce another valid artifact)",
 		"workers are child processes under an address-space limit: a process death (fatal error: out of memory, runtime fault) is attributed to the case in flight through the journal",
 	}
@@ -289,8 +289,12 @@ func c06BuildArtifact(pl *C06Plan) (*c06Artifact, error) {
 		w := wires[pl.Wire%len(wires)]
 		r := NewRng(pl.WSeed, 0x6e)
 		o := ref.GenOpts{MaxLen: 12, MaxItems: 4, TimeText: func() string { return genTime(r).Format(time.RFC3339Nano) }}
+		skew := false
 		if w.Name == "W5" {
 			o.MaxItems = []int{40, 3000, 20000, 45000}[pl.WSeed%4]
+			// skewed files: one long array early, then hundreds of short ones
+			// (anything sized from "the longest seen so far" shows here)
+			skew = pl.WN > 6
 		}
 		a.target = w.Target
 		a.codec = pl.WCodec
@@ -304,7 +308,11 @@ func c06BuildArtifact(pl *C06Plan) (*c06Artifact, error) {
 			n := min(per, left)
 			e := &ref.Enc{}
 			for k := 0; k < n; k++ {
-				if err := e.Encode(w.Schema, ref.GenDatum(w.Schema, r, o, 0), "r"); err != nil {
+				oo := o
+				if skew && (left != pl.WN || k > 0) {
+					oo.MaxItems = 2
+				}
+				if err := e.Encode(w.Schema, ref.GenDatum(w.Schema, r, oo, 0), "r"); err != nil {
 					return nil, err
 				}
 			}
@@ -660,6 +668,10 @@ func (c06Prop) Generate(seed uint64, idx int, tier string) *Plan {
 		pl.WN = r.Range(1, 6)
 		pl.WCodec = r.Pick([]string{"null", "null", "null", "deflate", "snappy", "none"})
 		pl.WParts = r.Range(1, 3)
+		if pl.Wire == 5 && r.P(1, 2) {
+			pl.WN = r.Range(300, 800)
+			pl.WParts = r.PickInt([]int{50, 200, 1000})
+		}
 	}
 	if pl.Src == "file" && pl.File.Type == "Empty" && r.P(3, 4) {
 		pl.File.Type = "Flat"
@@ -1132,7 +1144,12 @@ func (c06Prop) Execute(p *Plan, run *Run) any {
 		run.Probes.Inc("enumerated-artifacts")
 	}
 
-	limit := func(inputLen int) uint64 { return 16<<20 + 1024*uint64(inputLen+a.decompSum) }
+	// 16 MiB of slack plus 200 bytes per byte of (input + decompressed) data. On
+	// the unchanged tree the largest ratio measured for inputs of 32 KiB and more
+	// is 26 bytes per byte (probe max-alloc-per-input-byte); a map entry of two
+	// bytes legitimately costs 100-150 bytes. The first build used 1024, which a
+	// reader allocating 1000x its input would still have passed.
+	limit := func(inputLen int) uint64 { return 16<<20 + 200*uint64(inputLen+a.decompSum) }
 	var schema avro.Schema
 	schemaOK := false
 	if s, err := avro.SchemaFromString(a.schemaJSON); err == nil {
@@ -1171,6 +1188,11 @@ func (c06Prop) Execute(p *Plan, run *Run) any {
 		}
 		if o.alloc > 1<<20 {
 			run.Probes.Inc("call-allocated>1MiB")
+		}
+		if n := inputLen + a.decompSum; n >= 32<<10 {
+			if ratio := int(o.alloc / uint64(n)); ratio > run.Probes["max-alloc-per-input-byte(inputs>=32KiB)"] {
+				run.Probes["max-alloc-per-input-byte(inputs>=32KiB)"] = ratio
+			}
 		}
 		return true
 	}
